@@ -4,7 +4,11 @@ Payload kinds (all floats travel as float.hex() strings, arrays row-major flatte
   call      one real model applied once per given time step to a prepared detector
             (emptied, and separately pre-filled with given photon/charge/pixel content)
   exposure  pyxel.run_mode(Exposure) with a pipeline of the listed models; returns the pixel bucket
-            after every readout
+            after every readout.  Options: the detector type (ccd / cmos / mkid / apd), `dirty` (the detector
+            holds data from earlier use), `route` (how the Readout object got its schedule: constructor,
+            setters, replace, file, range string)
+  life      detector.empty(arg) called on a detector whose photon / charge / pixel buckets hold data; returns
+            which of them were emptied
 Nothing is compared here; the arrays go back to the harness, which writes them into Coq case files.
 """
 from __future__ import annotations
@@ -57,10 +61,81 @@ def make_det(d):
         char["pre_amplification"] = fx(d["preamp"])
     if "vrange" in d:
         char["adc_voltage_range"] = (fx(d["vrange"][0]), fx(d["vrange"][1]))
-    det = pyx.make_detector(kind=d.get("kind", "ccd"), rows=d["rows"], cols=d["cols"],
-                            pixel_vert_size=fx(d.get("pv", 10.0)), pixel_horz_size=fx(d.get("ph", 10.0)), **char)
+    if d.get("kind") == "apd":
+        # the APD has its own characteristics class (no charge_to_volt_conversion / pre_amplification arguments)
+        from pyxel import detectors as pd_
+
+        ch = pd_.APDCharacteristics(roic_gain=fx(d.get("roic_gain", 0.5)), quantum_efficiency=char["quantum_efficiency"],
+                                    full_well_capacity=100000, adc_bit_resolution=char.get("adc_bit_resolution", 16),
+                                    adc_voltage_range=char.get("adc_voltage_range", (0.0, 10.0)),
+                                    avalanche_gain=fx(d.get("avalanche_gain", 1.0)), pixel_reset_voltage=5.0)
+        geo = pd_.APDGeometry(row=d["rows"], col=d["cols"], total_thickness=40.0, pixel_vert_size=fx(d.get("pv", 10.0)),
+                              pixel_horz_size=fx(d.get("ph", 10.0)))
+        det = pd_.APD(geometry=geo, environment=pd_.Environment(temperature=200.0), characteristics=ch)
+    else:
+        det = pyx.make_detector(kind=d.get("kind", "ccd"), rows=d["rows"], cols=d["cols"],
+                                pixel_vert_size=fx(d.get("pv", 10.0)), pixel_horz_size=fx(d.get("ph", 10.0)), **char)
     det.environment.temperature = fx(d.get("temperature", 200.0))
     return det
+
+
+def soil(det, shape, value=5.0):
+    """Leave data in every bucket, as an earlier exposure on the same detector object would."""
+    det.photon.array = np.full(shape, value * 2.0)
+    det.charge.add_charge_array(np.full(shape, value + 2.0))
+    det.pixel.array = np.full(shape, value)
+    det.signal.array = np.full(shape, value + 1.0)
+    if hasattr(det, "phase"):
+        try:
+            det.phase.array = np.full(shape, value + 3.0)
+        except Exception:  # noqa: BLE001
+            pass
+
+
+def build_readout(p):
+    """The Readout of the payload, its schedule established by the requested route.  Whatever the route, the
+    resulting object must describe (start, times, non_destructive) of the payload."""
+    from harness import pyx
+    from pyxel.exposure import Readout
+
+    times, start, nd = [fx(t) for t in p["times"]], fx(p["start"]), bool(p["nd"])
+    route = p.get("route", "ctor")
+
+    def nz(x):     # a first readout time of exactly 0 is refused by Readout
+        return x + 0.5 if x == 0.0 else x
+    if route == "ctor":
+        return pyx.make_readout(times=times, start_time=start, non_destructive=nd)
+    if route == "set_times":          # another schedule first, then the `times` setter
+        ro = Readout(times=[nz(times[0] + 1.0), times[0] + 5.0], start_time=start, non_destructive=nd)
+        ro.times = list(times)
+        return ro
+    if route == "set_start":          # another start first, then the `start_time` setter
+        ro = Readout(times=list(times), start_time=min(start, times[0]) - 2.5, non_destructive=nd)
+        ro.start_time = start
+        return ro
+    if route == "set_both":
+        ro = Readout(times=[nz(times[0] + 3.0)], start_time=min(start, times[0]) - 1.5, non_destructive=nd)
+        ro.start_time = start
+        ro.times = np.array(times)
+        return ro
+    if route == "set_nd":             # the other mode first, then the `non_destructive` setter
+        ro = Readout(times=list(times), start_time=start, non_destructive=not nd)
+        ro.non_destructive = nd
+        return ro
+    if route == "replace":
+        ro = Readout(times=[nz(times[-1] + 1.0), times[-1] + 2.0], start_time=min(start, times[0]) - 1.0, non_destructive=not nd)
+        return ro.replace(times=list(times), start_time=start, non_destructive=nd)
+    if route == "replace_times":      # replace() changes the times only: start and mode are carried over
+        ro = Readout(times=[nz(times[0] + 1.0), times[0] + 2.0], start_time=start, non_destructive=nd)
+        return ro.replace(times=np.array(times))
+    if route == "file":
+        name = "c17_times_" + hashlib.sha1(json.dumps(p["times"]).encode()).hexdigest()[:16] + ".npy"
+        np.save(name, np.array(times, dtype=float))
+        return Readout(times_from_file=name, start_time=start, non_destructive=nd)
+    if route == "string":             # the textual range form of the YAML files; only used for arithmetic schedules
+        t0, t1, n = times[0], times[-1], len(times)
+        return Readout(times=f"numpy.linspace({t0!r}, {t1!r}, {n})", start_time=start, non_destructive=nd)
+    raise ValueError(route)
 
 
 def data_file(m, shape, tag):
@@ -381,8 +456,9 @@ def handle_exposure(p):
     spec = {g: (ms or None) for g, ms in spec.items()}
     det = make_det(det_spec)
     try:
-        ro = pyx.make_readout(times=[fx(t) for t in p["times"]], start_time=fx(p["start"]),
-                              non_destructive=bool(p["nd"]))
+        if p.get("dirty"):
+            soil(det, (det_spec["rows"], det_spec["cols"]), fx(p["dirty"]))
+        ro = build_readout(p)
         if p.get("entry", "run_mode") == "exposure_mode":
             # the deprecated public entry point has its own copy of the readout loop (also used by calibration)
             import warnings
@@ -399,15 +475,59 @@ def handle_exposure(p):
             px = np.asarray(res["bucket"]["pixel"].values, dtype=float)
         if px.ndim != 3 or px.shape[1:] != (det_spec["rows"], det_spec["cols"]):
             return dict(aux=auxs, **{"raise": f"shape:{px.shape}"})
-        return dict(aux=auxs, pixel=[hx(px[i]) for i in range(px.shape[0])])
+        # the schedule as the Readout object and the detector's own readout properties carry it after the run
+        sched = []
+        for obj in (ro, det.readout_properties):
+            sched.append(dict(start=float(obj.start_time).hex(), times=hx(obj.times), steps=hx(obj.steps),
+                              nd=bool(obj.non_destructive)))
+        return dict(aux=auxs, pixel=[hx(px[i]) for i in range(px.shape[0])], sched=sched)
     except Exception as ex:  # noqa: BLE001
         return dict(aux=auxs, **{"raise": type(ex).__name__, "msg": str(ex)[:300]})
+
+
+def handle_life(p):
+    """detector.empty(arg) on a detector of the requested type that holds data in every bucket."""
+    det_spec = p["det"]
+    shape = (det_spec["rows"], det_spec["cols"])
+    det = make_det(det_spec)
+    det.set_readout(times=[1.0], start_time=0.0)
+    soil(det, shape, 5.0)
+    before = dict(photon=np.array(det.photon.array), charge=np.array(det.charge.array), pixel=np.array(det.pixel.array))
+    out = dict(cls=type(det).__name__, mro=[c.__name__ for c in type(det).__mro__[:-1]])
+    try:
+        if p["arg"] == "default":
+            det.empty()
+        else:
+            det.empty(bool(p["arg"]))
+    except Exception as ex:  # noqa: BLE001
+        out["raise"] = type(ex).__name__
+        out["msg"] = str(ex)[:200]
+        return out
+
+    def state(name):
+        b = getattr(det, name)
+        arr = getattr(b, "_array", None)
+        if arr is None:
+            return "emptied"
+        arr = np.asarray(arr, dtype=float)
+        if arr.shape == before[name].shape and (arr == 0.0).all():
+            return "emptied"
+        if arr.shape == before[name].shape and (arr == before[name]).all():
+            return "kept"
+        return "other"
+
+    out["buckets"] = {k: state(k) for k in ("photon", "charge", "pixel")}
+    if out["buckets"]["charge"] == "emptied" and not det.charge.frame_empty():
+        out["buckets"]["charge"] = "other"
+    return out
 
 
 def handle(p):
     import logging
 
     logging.disable(logging.CRITICAL)
+    if p["kind"] == "life":
+        return handle_life(p)
     if p["kind"] == "call":
         return handle_call(p)
     if p["kind"] == "exposure":
